@@ -19,353 +19,13 @@
      NoFusion(Render(p))        (the spacing rule is sufficient)
    and emits <tree, text, value> for the replayer, which runs the text through
    OCCA parse -> print -> parse and compares trees; g++ evaluates the printed texts.         *)
-EXTENDS Integers, Sequences, FiniteSets, TLC, Json, OperatorTable
+EXTENDS ExprTrees
 
 CONSTANTS Trees,      \* the abstract trees (no Paren nodes) of this run
-          EnvInit,    \* initial environment: function variable name -> value
           EnvOrder    \* the variable names as a sequence (order of the values in the output)
 
 VARIABLES tree, stage, ptree, toks, text, parsed, result
 vars == <<tree, stage, ptree, toks, text, parsed, result>>
-
----------------------------------------------------------------------------
-(* trees *)
-Id(name)        == [n |-> "id", v |-> name]                      \* name: sequence of characters
-Un(o, x)        == [n |-> "un", op |-> o, x |-> x]               \* prefix operator
-Post(o, x)      == [n |-> "post", op |-> o, x |-> x]
-Bin(o, l, r)    == [n |-> "bin", op |-> o, l |-> l, r |-> r]
-Tern(c, t, f)   == [n |-> "tern", c |-> c, t |-> t, f |-> f]
-Paren(x)        == [n |-> "paren", x |-> x]
-Call(f, args)   == [n |-> "call", f |-> f, args |-> args]        \* args: sequence of trees
-Index(a, i)     == [n |-> "index", a |-> a, i |-> i]
-Cast(ty, x)     == [n |-> "cast", ty |-> ty, x |-> x]            \* ty: sequence of characters
-SizeofE(x)      == [n |-> "sizeof", x |-> x]
-\* literal leaf: k in {"prim","char","str"}, sp = spelling, tv = token value (delimiter unescaped),
-\* val = integer value (prim, char), codes = character codes (str)
-Lit(k, sp, tv, val, codes) == [n |-> "lit", k |-> k, sp |-> sp, tv |-> tv, val |-> val, codes |-> codes]
-
----------------------------------------------------------------------------
-(* operators and the C++ precedence table (bigger binds tighter) *)
-MulOps   == {<<"*">>, <<"/">>, <<"%">>}
-AddOps   == {<<"+">>, <<"-">>}
-ShiftOps == {<<"<","<">>, <<">",">">>}
-RelOps   == {<<"<">>, <<"<","=">>, <<">">>, <<">","=">>}
-EqOps    == {<<"=","=">>, <<"!","=">>}
-AssignOps == {<<"=">>, <<"+","=">>, <<"-","=">>, <<"*","=">>, <<"/","=">>, <<"%","=">>, <<"&","=">>, <<"|","=">>,
-              <<"^","=">>, <<"<","<","=">>, <<">",">","=">>}
-COMMA == <<",">>
-PrefixOps == {<<"+">>, <<"-">>, <<"!">>, <<"~">>, <<"+","+">>, <<"-","-">>, <<"*">>, <<"&">>}
-IncDec == {<<"+","+">>, <<"-","-">>}
-MemberOps == {<<".">>, <<"-",">">>}
-
-BinPrec(o) ==
-  CASE o \in MulOps -> 13 [] o \in AddOps -> 12 [] o \in ShiftOps -> 11 [] o \in RelOps -> 10
-    [] o \in EqOps -> 9 [] o = <<"&">> -> 8 [] o = <<"^">> -> 7 [] o = <<"|">> -> 6
-    [] o = <<"&","&">> -> 5 [] o = <<"|","|">> -> 4 [] o \in AssignOps -> 2 [] o = COMMA -> 1
-    [] o \in MemberOps -> 15
-LeftAssocOps == MulOps \cup AddOps \cup ShiftOps \cup RelOps \cup EqOps
-                \cup {<<"&">>, <<"^">>, <<"|">>, <<"&","&">>, <<"|","|">>}
-ASSUME (LeftAssocOps \cup AssignOps \cup PrefixOps \cup MemberOps \cup {COMMA, <<"?">>, <<":">>}) \subseteq OpTable
-
-\* grammar level of a tree: primary 16, postfix 15, unary 14, binary its precedence,
-\* conditional 3, assignment 2, comma 1
-Level(t) ==
-  CASE t.n \in {"id", "lit", "paren"} -> 16
-    [] t.n \in {"post", "call", "index"} -> 15
-    [] t.n \in {"un", "cast", "sizeof"} -> 14
-    [] t.n = "tern" -> 3
-    [] t.n = "bin" -> BinPrec(t.op)
-
----------------------------------------------------------------------------
-(* Parenthesize: parentheses exactly where the grammar needs them (declarative form) *)
-RECURSIVE P(_)
-Wrap(c, min) == IF Level(c) >= min THEN P(c) ELSE Paren(P(c))
-P(t) ==
-  CASE t.n \in {"id", "lit"} -> t
-    [] t.n = "paren" -> Paren(P(t.x))
-    [] t.n = "un"    -> Un(t.op, Wrap(t.x, 14))
-    [] t.n = "cast"  -> Cast(t.ty, Wrap(t.x, 14))
-    [] t.n = "sizeof" -> SizeofE(P(t.x))                       \* sizeof( expression )
-    [] t.n = "post"  -> Post(t.op, Wrap(t.x, 15))
-    [] t.n = "call"  -> Call(Wrap(t.f, 15), [k \in 1..Len(t.args) |-> Wrap(t.args[k], 2)])
-    [] t.n = "index" -> Index(Wrap(t.a, 15), P(t.i))
-    [] t.n = "tern"  -> Tern(Wrap(t.c, 4), P(t.t), Wrap(t.f, 2))
-    [] t.n = "bin" /\ t.op \in LeftAssocOps -> Bin(t.op, Wrap(t.l, BinPrec(t.op)), Wrap(t.r, BinPrec(t.op) + 1))
-    [] t.n = "bin" /\ t.op \in AssignOps -> Bin(t.op, Wrap(t.l, 4), Wrap(t.r, 2))
-    [] t.n = "bin" /\ t.op = COMMA -> Bin(t.op, Wrap(t.l, 1), Wrap(t.r, 2))
-    [] t.n = "bin" /\ t.op \in MemberOps -> Bin(t.op, Wrap(t.l, 15), t.r)
-Parenthesize(t) == P(t)
-
-RECURSIVE Strip(_)   \* remove every Paren node
-Strip(t) ==
-  CASE t.n \in {"id", "lit"} -> t
-    [] t.n = "paren" -> Strip(t.x)
-    [] t.n = "un" -> Un(t.op, Strip(t.x))
-    [] t.n = "cast" -> Cast(t.ty, Strip(t.x))
-    [] t.n = "sizeof" -> SizeofE(Strip(t.x))
-    [] t.n = "post" -> Post(t.op, Strip(t.x))
-    [] t.n = "call" -> Call(Strip(t.f), [k \in 1..Len(t.args) |-> Strip(t.args[k])])
-    [] t.n = "index" -> Index(Strip(t.a), Strip(t.i))
-    [] t.n = "tern" -> Tern(Strip(t.c), Strip(t.t), Strip(t.f))
-    [] t.n = "bin" -> Bin(t.op, Strip(t.l), Strip(t.r))
-
----------------------------------------------------------------------------
-(* Tokens: what a printer that never adds parentheses emits *)
-TId(sp)   == [k |-> "id", sp |-> sp]
-TOp(sp)   == [k |-> "op", sp |-> sp]
-TType(sp) == [k |-> "type", sp |-> sp]
-TLit(l)   == [k |-> "lit", sp |-> l.sp, lit |-> l]
-LP == <<"(">>  RP == <<")">>  LB == <<"[">>  RB == <<"]">>
-SIZEOF == <<"s","i","z","e","o","f">>
-
-RECURSIVE Tokens(_), ArgTokens(_, _)
-ArgTokens(args, k) == IF k > Len(args) THEN <<>>
-                      ELSE (IF k > 1 THEN <<TOp(COMMA)>> ELSE <<>>) \o Tokens(args[k]) \o ArgTokens(args, k + 1)
-Tokens(t) ==
-  CASE t.n = "id" -> <<TId(t.v)>>
-    [] t.n = "lit" -> <<TLit(t)>>
-    [] t.n = "paren" -> <<TOp(LP)>> \o Tokens(t.x) \o <<TOp(RP)>>
-    [] t.n = "un" -> <<TOp(t.op)>> \o Tokens(t.x)
-    [] t.n = "post" -> Tokens(t.x) \o <<TOp(t.op)>>
-    [] t.n = "cast" -> <<TOp(LP), TType(t.ty), TOp(RP)>> \o Tokens(t.x)
-    [] t.n = "sizeof" -> <<TOp(SIZEOF), TOp(LP)>> \o Tokens(t.x) \o <<TOp(RP)>>
-    [] t.n = "call" -> Tokens(t.f) \o <<TOp(LP)>> \o ArgTokens(t.args, 1) \o <<TOp(RP)>>
-    [] t.n = "index" -> Tokens(t.a) \o <<TOp(LB)>> \o Tokens(t.i) \o <<TOp(RB)>>
-    [] t.n = "tern" -> Tokens(t.c) \o <<TOp(<<"?">>)>> \o Tokens(t.t) \o <<TOp(<<":">>)>> \o Tokens(t.f)
-    [] t.n = "bin" -> Tokens(t.l) \o <<TOp(t.op)>> \o Tokens(t.r)
-
----------------------------------------------------------------------------
-(* Render: text with the intended spacing *)
-StartsWithOp(s, o) == Len(o) <= Len(s) /\ SubSeq(s, 1, Len(o)) = o
-\* maximal munch at the start of s: the longest table operator that is a prefix of s (0 if none)
-MunchLen(s) == LET ls == {Len(o) : o \in {o \in OpTable : StartsWithOp(s, o)}}
-               IN IF ls = {} THEN 0 ELSE CHOOSE x \in ls : \A y \in ls : y <= x
-\* two symbol-operator tokens written without a blank are read back as the same two tokens
-IsSymOp(t) == t.k = "op" /\ t.sp[1] \notin {"s"}     \* sizeof is the only word operator used here
-Fuses(a, b) == IsSymOp(a) /\ IsSymOp(b) /\ MunchLen(a.sp \o b.sp) # Len(a.sp)
-Gap(a, b) == IF Fuses(a, b) THEN <<"SP">> ELSE <<>>
-First(ts) == ts[1]
-Last(ts)  == ts[Len(ts)]
-
-RECURSIVE Render(_), RenderArgs(_, _)
-RenderArgs(args, k) == IF k > Len(args) THEN <<>>
-                       ELSE (IF k > 1 THEN <<",", "SP">> ELSE <<>>) \o Render(args[k]) \o RenderArgs(args, k + 1)
-Render(t) ==
-  CASE t.n = "id" -> t.v
-    [] t.n = "lit" -> t.sp
-    [] t.n = "paren" -> LP \o Render(t.x) \o RP
-    [] t.n = "un" -> t.op \o Gap(TOp(t.op), First(Tokens(t.x))) \o Render(t.x)
-    [] t.n = "post" -> Render(t.x) \o Gap(Last(Tokens(t.x)), TOp(t.op)) \o t.op
-    [] t.n = "cast" -> LP \o t.ty \o RP \o <<"SP">> \o Render(t.x)
-    [] t.n = "sizeof" -> SIZEOF \o LP \o Render(t.x) \o RP
-    [] t.n = "call" -> Render(t.f) \o LP \o RenderArgs(t.args, 1) \o RP
-    [] t.n = "index" -> Render(t.a) \o LB \o Render(t.i) \o RB
-    [] t.n = "tern" -> Render(t.c) \o <<"SP", "?", "SP">> \o Render(t.t) \o <<"SP", ":", "SP">> \o Render(t.f)
-    [] t.n = "bin" /\ t.op = COMMA -> Render(t.l) \o <<",", "SP">> \o Render(t.r)
-    [] t.n = "bin" /\ t.op \in MemberOps -> Render(t.l) \o t.op \o Render(t.r)
-    [] t.n = "bin" -> Render(t.l) \o <<"SP">> \o t.op \o <<"SP">> \o Render(t.r)
-
-\* the token pairs that Render always writes directly next to each other (no Gap decision)
-RECURSIVE GluedPairs(_)
-ArgPairs(args) == UNION {GluedPairs(args[k]) : k \in 1..Len(args)}
-                  \cup {<<Last(Tokens(args[k])), TOp(COMMA)>> : k \in 1..(Len(args) - 1)}
-GluedPairs(t) ==
-  CASE t.n \in {"id", "lit"} -> {}
-    [] t.n = "paren" -> {<<TOp(LP), First(Tokens(t.x))>>, <<Last(Tokens(t.x)), TOp(RP)>>} \cup GluedPairs(t.x)
-    [] t.n = "sizeof" -> {<<TOp(LP), First(Tokens(t.x))>>, <<Last(Tokens(t.x)), TOp(RP)>>} \cup GluedPairs(t.x)
-    [] t.n \in {"un", "post", "cast"} -> GluedPairs(t.x)
-    [] t.n = "call" -> {<<Last(Tokens(t.f)), TOp(LP)>>} \cup GluedPairs(t.f) \cup ArgPairs(t.args)
-                       \cup (IF Len(t.args) = 0 THEN {<<TOp(LP), TOp(RP)>>}
-                             ELSE {<<TOp(LP), First(Tokens(t.args[1]))>>, <<Last(Tokens(t.args[Len(t.args)])), TOp(RP)>>})
-    [] t.n = "index" -> {<<Last(Tokens(t.a)), TOp(LB)>>, <<TOp(LB), First(Tokens(t.i))>>, <<Last(Tokens(t.i)), TOp(RB)>>}
-                        \cup GluedPairs(t.a) \cup GluedPairs(t.i)
-    [] t.n = "tern" -> GluedPairs(t.c) \cup GluedPairs(t.t) \cup GluedPairs(t.f)
-    [] t.n = "bin" /\ t.op \in MemberOps -> {<<Last(Tokens(t.l)), TOp(t.op)>>} \cup GluedPairs(t.l)
-    [] t.n = "bin" -> GluedPairs(t.l) \cup GluedPairs(t.r)
-
----------------------------------------------------------------------------
-(* ParseC: precedence climbing over the token sequence; every function returns [t, i] =
-   the tree and the index of the first token not consumed                                   *)
-Tk(ts, i) == IF i <= Len(ts) THEN ts[i] ELSE [k |-> "eof", sp |-> <<>>]
-IsOpTok(t, sp) == t.k = "op" /\ t.sp = sp
-IsBinTok(t) == t.k = "op" /\ t.sp \in LeftAssocOps
-
-RECURSIVE PExpr(_, _), PExprLoop(_, _, _), PAssign(_, _), PBinary(_, _, _), PBinLoop(_, _, _, _),
-          PUnary(_, _), PPostfix(_, _, _), PArgs(_, _, _)
-
-PPrimary(ts, i) ==
-  LET k == Tk(ts, i) IN
-  CASE k.k = "id" -> [t |-> Id(k.sp), i |-> i + 1]
-    [] k.k = "lit" -> [t |-> k.lit, i |-> i + 1]
-    [] IsOpTok(k, LP) -> LET r == PExpr(ts, i + 1) IN [t |-> Paren(r.t), i |-> r.i + 1]   \* skips ")"
-
-PArgs(ts, i, acc) ==      \* i is after "(" or after ","
-  IF IsOpTok(Tk(ts, i), RP) THEN [args |-> acc, i |-> i + 1]
-  ELSE LET a == PAssign(ts, i) IN
-       IF IsOpTok(Tk(ts, a.i), COMMA) THEN PArgs(ts, a.i + 1, Append(acc, a.t))
-       ELSE [args |-> Append(acc, a.t), i |-> a.i + 1]                                      \* skips ")"
-
-PPostfix(ts, i, base) ==
-  LET k == Tk(ts, i) IN
-  IF k.k = "op" /\ k.sp \in IncDec THEN PPostfix(ts, i + 1, Post(k.sp, base))
-  ELSE IF IsOpTok(k, LP) THEN LET a == PArgs(ts, i + 1, <<>>) IN PPostfix(ts, a.i, Call(base, a.args))
-  ELSE IF IsOpTok(k, LB) THEN LET r == PExpr(ts, i + 1) IN PPostfix(ts, r.i + 1, Index(base, r.t))
-  ELSE IF k.k = "op" /\ k.sp \in MemberOps THEN PPostfix(ts, i + 2, Bin(k.sp, base, Id(Tk(ts, i + 1).sp)))
-  ELSE [t |-> base, i |-> i]
-
-PUnary(ts, i) ==
-  LET k == Tk(ts, i) IN
-  IF k.k = "op" /\ k.sp \in PrefixOps THEN LET r == PUnary(ts, i + 1) IN [t |-> Un(k.sp, r.t), i |-> r.i]
-  ELSE IF IsOpTok(k, SIZEOF) /\ IsOpTok(Tk(ts, i + 1), LP)
-       THEN LET r == PExpr(ts, i + 2) IN [t |-> SizeofE(r.t), i |-> r.i + 1]
-  ELSE IF IsOpTok(k, LP) /\ Tk(ts, i + 1).k = "type" /\ IsOpTok(Tk(ts, i + 2), RP)
-       THEN LET r == PUnary(ts, i + 3) IN [t |-> Cast(Tk(ts, i + 1).sp, r.t), i |-> r.i]
-  ELSE LET p == PPrimary(ts, i) IN PPostfix(ts, p.i, p.t)
-
-PBinLoop(ts, lhs, i, min) ==
-  LET k == Tk(ts, i) IN
-  IF IsBinTok(k) /\ BinPrec(k.sp) >= min
-  THEN LET r == PBinary(ts, i + 1, BinPrec(k.sp) + 1) IN PBinLoop(ts, Bin(k.sp, lhs, r.t), r.i, min)
-  ELSE [t |-> lhs, i |-> i]
-PBinary(ts, i, min) == LET u == PUnary(ts, i) IN PBinLoop(ts, u.t, u.i, min)
-
-PAssign(ts, i) ==
-  LET l == PBinary(ts, i, 4)
-      k == Tk(ts, l.i)
-  IN IF IsOpTok(k, <<"?">>)
-     THEN LET m == PExpr(ts, l.i + 1)          \* the middle operand is a full expression
-              e == PAssign(ts, m.i + 1)        \* skips ":"; the third is an assignment-expression
-          IN [t |-> Tern(l.t, m.t, e.t), i |-> e.i]
-     ELSE IF k.k = "op" /\ k.sp \in AssignOps
-     THEN LET r == PAssign(ts, l.i + 1) IN [t |-> Bin(k.sp, l.t, r.t), i |-> r.i]
-     ELSE l
-
-PExprLoop(ts, lhs, i) ==
-  IF IsOpTok(Tk(ts, i), COMMA) THEN LET r == PAssign(ts, i + 1) IN PExprLoop(ts, Bin(COMMA, lhs, r.t), r.i)
-  ELSE [t |-> lhs, i |-> i]
-PExpr(ts, i) == LET a == PAssign(ts, i) IN PExprLoop(ts, a.t, a.i)
-
-ParseC(ts) == LET r == PExpr(ts, 1) IN IF r.i = Len(ts) + 1 THEN r.t ELSE [n |-> "error", at |-> r.i]
-
----------------------------------------------------------------------------
-(* Eval: C int semantics on small values; "undef" = undefined / not representable here *)
-Undef == -999999     \* an integer outside the Small range (TLC cannot compare an integer with a string)
-Small(v) == v > -30000 /\ v < 30000
-TruncDiv(a, b) == IF (a >= 0) = (b > 0) THEN (IF a >= 0 THEN a \div b ELSE (-a) \div (-b)) ELSE -((IF a >= 0 THEN a ELSE -a) \div (IF b > 0 THEN b ELSE -b))
-TruncMod(a, b) == a - b * TruncDiv(a, b)
-W == 65536
-ToU(v) == IF v >= 0 THEN v ELSE v + W
-FromU(u) == IF u >= W \div 2 THEN u - W ELSE u
-RECURSIVE BitOp(_, _, _, _)
-BitOp(f, x, y, n) == IF n = 0 THEN 0
-                     ELSE LET bx == x % 2  by == y % 2
-                              b == CASE f = "and" -> bx * by [] f = "or" -> IF bx + by > 0 THEN 1 ELSE 0 [] f = "xor" -> (bx + by) % 2
-                          IN b + 2 * BitOp(f, x \div 2, y \div 2, n - 1)
-Bits(f, a, b) == FromU(BitOp(f, ToU(a), ToU(b), 16))
-Pow2(k) == IF k = 0 THEN 1 ELSE IF k = 1 THEN 2 ELSE IF k = 2 THEN 4 ELSE IF k = 3 THEN 8 ELSE IF k = 4 THEN 16
-           ELSE IF k = 5 THEN 32 ELSE IF k = 6 THEN 64 ELSE IF k = 7 THEN 128 ELSE 256
-B(b) == IF b THEN 1 ELSE 0
-
-Arith(o, a, b) ==
-  CASE o = <<"+">> -> a + b [] o = <<"-">> -> a - b [] o = <<"*">> -> a * b
-    [] o = <<"/">> -> IF b = 0 THEN Undef ELSE TruncDiv(a, b)
-    [] o = <<"%">> -> IF b = 0 THEN Undef ELSE TruncMod(a, b)
-    [] o = <<"<","<">> -> IF b < 0 \/ b > 8 \/ a < 0 THEN Undef ELSE a * Pow2(b)
-    [] o = <<">",">">> -> IF b < 0 \/ b > 8 THEN Undef ELSE a \div Pow2(b)
-    [] o = <<"<">> -> B(a < b) [] o = <<"<","=">> -> B(a <= b) [] o = <<">">> -> B(a > b) [] o = <<">","=">> -> B(a >= b)
-    [] o = <<"=","=">> -> B(a = b) [] o = <<"!","=">> -> B(a # b)
-    [] o = <<"&">> -> Bits("and", a, b) [] o = <<"|">> -> Bits("or", a, b) [] o = <<"^">> -> Bits("xor", a, b)
-BaseOp(o) == IF o = <<"=">> THEN o ELSE SubSeq(o, 1, Len(o) - 1)      \* "+=" -> "+"
-Chk(v) == IF v = Undef THEN Undef ELSE IF Small(v) THEN v ELSE Undef
-R(v, e) == [v |-> v, env |-> e]
-Set(e, name, v) == [e EXCEPT ![name] = v]
-IsVar(t) == t.n = "id" /\ t.v \in DOMAIN EnvInit
-
-RECURSIVE Eval(_, _)
-Eval(t, e) ==
-  CASE t.n = "id" -> IF IsVar(t) THEN R(e[t.v], e) ELSE R(Undef, e)
-    [] t.n = "lit" -> R(IF t.k = "str" THEN Undef ELSE t.val, e)
-    [] t.n = "paren" -> Eval(t.x, e)
-    [] t.n = "cast" -> Eval(t.x, e)                       \* (int), (long): identity on small ints
-    [] t.n = "sizeof" -> R(IF t.x.n = "lit" /\ t.x.k = "str" THEN Len(t.x.codes) + 1 ELSE 4, e)   \* operand not evaluated
-    [] t.n = "index" ->
-         LET i == Eval(t.i, e) IN
-         IF t.a.n = "lit" /\ t.a.k = "str" /\ i.v # Undef /\ i.v >= 0 /\ i.v <= Len(t.a.codes)
-         THEN R(IF i.v = Len(t.a.codes) THEN 0 ELSE t.a.codes[i.v + 1], i.env) ELSE R(Undef, e)
-    [] t.n = "call" ->      \* int f(int x, int y) { return 10 * x + y; }
-         IF Len(t.args) # 2 THEN R(Undef, e)
-         ELSE LET a == Eval(t.args[1], e)  b == Eval(t.args[2], a.env) IN
-              IF a.v = Undef \/ b.v = Undef THEN R(Undef, e) ELSE R(Chk(10 * a.v + b.v), b.env)
-    [] t.n = "un" ->
-         IF t.op \in IncDec THEN
-           (IF ~IsVar(t.x) THEN R(Undef, e)
-            ELSE LET nv == IF t.op = <<"+","+">> THEN e[t.x.v] + 1 ELSE e[t.x.v] - 1 IN R(Chk(nv), Set(e, t.x.v, nv)))
-         ELSE IF t.op \in {<<"*">>, <<"&">>} THEN R(Undef, e)
-         ELSE LET x == Eval(t.x, e) IN
-              IF x.v = Undef THEN R(Undef, e)
-              ELSE R(CASE t.op = <<"+">> -> x.v [] t.op = <<"-">> -> -x.v [] t.op = <<"!">> -> B(x.v = 0)
-                       [] t.op = <<"~">> -> -x.v - 1, x.env)
-    [] t.n = "post" ->
-         IF ~IsVar(t.x) THEN R(Undef, e)
-         ELSE LET nv == IF t.op = <<"+","+">> THEN e[t.x.v] + 1 ELSE e[t.x.v] - 1 IN R(IF Small(nv) THEN e[t.x.v] ELSE Undef, Set(e, t.x.v, nv))
-    [] t.n = "tern" ->
-         LET c == Eval(t.c, e) IN
-         IF c.v = Undef THEN R(Undef, e) ELSE IF c.v # 0 THEN Eval(t.t, c.env) ELSE Eval(t.f, c.env)
-    [] t.n = "bin" /\ t.op = <<"&","&">> ->
-         LET l == Eval(t.l, e) IN
-         IF l.v = Undef THEN R(Undef, e) ELSE IF l.v = 0 THEN R(0, l.env)
-         ELSE LET r == Eval(t.r, l.env) IN IF r.v = Undef THEN R(Undef, e) ELSE R(B(r.v # 0), r.env)
-    [] t.n = "bin" /\ t.op = <<"|","|">> ->
-         LET l == Eval(t.l, e) IN
-         IF l.v = Undef THEN R(Undef, e) ELSE IF l.v # 0 THEN R(1, l.env)
-         ELSE LET r == Eval(t.r, l.env) IN IF r.v = Undef THEN R(Undef, e) ELSE R(B(r.v # 0), r.env)
-    [] t.n = "bin" /\ t.op = COMMA ->
-         LET l == Eval(t.l, e) IN IF l.v = Undef THEN R(Undef, e) ELSE Eval(t.r, l.env)
-    [] t.n = "bin" /\ t.op \in AssignOps ->
-         LET tgt == IF t.l.n = "paren" THEN t.l.x ELSE t.l IN
-         IF ~IsVar(tgt) THEN R(Undef, e)
-         ELSE LET r == Eval(t.r, e) IN
-              IF r.v = Undef THEN R(Undef, e)
-              ELSE LET nv == IF t.op = <<"=">> THEN r.v ELSE Arith(BaseOp(t.op), r.env[tgt.v], r.v) IN
-                   IF Chk(nv) = Undef THEN R(Undef, e) ELSE R(nv, Set(r.env, tgt.v, nv))
-    [] t.n = "bin" /\ t.op \in MemberOps -> R(Undef, e)
-    [] t.n = "bin" ->
-         LET l == Eval(t.l, e)  r == Eval(t.r, l.env) IN
-         IF l.v = Undef \/ r.v = Undef THEN R(Undef, e) ELSE R(Chk(Arith(t.op, l.v, r.v)), r.env)
-
-\* unsequenced side effects make the C++ value undefined: a variable modified in one operand of an
-\* unsequenced operator must not be read or modified in the other
-RECURSIVE Mods(_), Reads(_), Racy(_)
-UnionSeq(f, s) == UNION {f[k] : k \in 1..Len(s)}
-Mods(t) ==
-  CASE t.n \in {"id", "lit", "sizeof"} -> {}
-    [] t.n \in {"paren", "cast"} -> Mods(t.x)
-    [] t.n \in {"un", "post"} -> (IF t.op \in IncDec /\ t.x.n = "id" THEN {t.x.v} ELSE {}) \cup Mods(t.x)
-    [] t.n = "call" -> UNION {Mods(t.args[k]) : k \in 1..Len(t.args)}
-    [] t.n = "index" -> Mods(t.a) \cup Mods(t.i)
-    [] t.n = "tern" -> Mods(t.c) \cup Mods(t.t) \cup Mods(t.f)
-    [] t.n = "bin" -> (IF t.op \in AssignOps /\ t.l.n = "id" THEN {t.l.v} ELSE {}) \cup Mods(t.l) \cup Mods(t.r)
-Reads(t) ==
-  CASE t.n = "id" -> {t.v}
-    [] t.n \in {"lit", "sizeof"} -> {}
-    [] t.n \in {"paren", "cast", "un", "post"} -> Reads(t.x)
-    [] t.n = "call" -> UNION {Reads(t.args[k]) : k \in 1..Len(t.args)}
-    [] t.n = "index" -> Reads(t.a) \cup Reads(t.i)
-    [] t.n = "tern" -> Reads(t.c) \cup Reads(t.t) \cup Reads(t.f)
-    [] t.n = "bin" -> Reads(t.l) \cup Reads(t.r)
-Clash(a, b) == (Mods(a) \cap (Reads(b) \cup Mods(b))) # {} \/ (Mods(b) \cap (Reads(a) \cup Mods(a))) # {}
-Racy(t) ==
-  CASE t.n \in {"id", "lit", "sizeof"} -> FALSE
-    [] t.n \in {"paren", "cast", "un", "post"} -> Racy(t.x)
-    [] t.n = "call" -> (\E k \in 1..Len(t.args) : Racy(t.args[k]))
-                       \/ (\E j, k \in 1..Len(t.args) : j < k /\ Clash(t.args[j], t.args[k]))
-    [] t.n = "index" -> Racy(t.a) \/ Racy(t.i) \/ Clash(t.a, t.i)
-    [] t.n = "tern" -> Racy(t.c) \/ Racy(t.t) \/ Racy(t.f)
-    [] t.n = "bin" /\ t.op \in {<<"&","&">>, <<"|","|">>, COMMA} -> Racy(t.l) \/ Racy(t.r)
-    [] t.n = "bin" /\ t.op \in AssignOps -> Racy(t.l) \/ Racy(t.r) \/ (t.l.n = "id" /\ t.l.v \in Mods(t.r)) \/ t.l.n # "id"
-    [] t.n = "bin" -> Racy(t.l) \/ Racy(t.r) \/ Clash(t.l, t.r)
-
-Value(t) == IF Racy(t) THEN R(Undef, EnvInit) ELSE Eval(t, EnvInit)
 
 ---------------------------------------------------------------------------
 Init == /\ tree \in Trees /\ stage = "picked"
@@ -387,7 +47,7 @@ OnlyParensAdded   == stage # "picked" => Strip(ptree) = Strip(tree)
 PrintParseIsId    == stage \in {"parsed", "done"} => parsed = ptree
 \* the spacing rule is sufficient: no two tokens that are written side by side fuse under maximal munch
 SpacingSuffices   == stage # "picked" => \A pr \in GluedPairs(ptree) : ~Fuses(pr[1], pr[2])
-SameValue         == stage = "done" => (Racy(tree) \/ Eval(Strip(parsed), EnvInit) = Eval(tree, EnvInit))
+SameValue         == stage = "done" => Value(Strip(parsed)) = Value(Strip(tree))
 
 Out == [tree |-> ptree, text |-> text, v |-> result.v, env |-> [k \in 1..Len(EnvOrder) |-> result.env[EnvOrder[k]]]]
 Emit == stage # "done" \/ PrintT(<<"B", ToJson(Out)>>)
